@@ -2,6 +2,7 @@ import Gtree.Model.Spreader
 import Gtree.Lemmas.ParseDoc
 import Gtree.Generated.Facts
 import Gtree.Lemmas.SplitSim
+import Gtree.Lemmas.BlockHavoc
 /-
   C10 — massive mode is the simple mode up to the order of roots: the parts that are logic.
   (1) Printer: with the mutex held around the printing of a whole root, the output of every schedule
@@ -167,5 +168,44 @@ theorem C10_block_beginnings_are_roots (p : PState) (l : Bytes) :
 /-- non-vacuity: "- a", "  - b", "- c" is cut into two blocks -/
 example : splitBlocks [[0x2D, 0x20, 0x61], [0x20, 0x20, 0x2D, 0x20, 0x62], [0x2D, 0x20, 0x63]]
     = [[[0x2D, 0x20, 0x61], [0x20, 0x20, 0x2D, 0x20, 0x62]], [[0x2D, 0x20, 0x63]]] := by decide
+
+end Gtree
+
+namespace Gtree
+
+/-- C10 (any order of blocks): the root blocks of documents written in one valid notation, handed to the
+    generator in ANY order (any permutation, any subset, any repetition – whichever worker gets which block
+    when), starting from any state of the shared parser the notation can have produced, each yield the merged
+    root the simple mode builds for that root; no block fails. -/
+theorem C10_any_block_order (s : Spelling) : ∀ (blocks : List (T × Nat)) (p : PState),
+    (∀ b ∈ blocks, s.Valid (items 1 [b.1])) → p.Within s →
+    ∃ p', genBlocksSeq p (blocks.map (fun b => spellRows s b.2 (items 1 [b.1])))
+            = (blocks.map (fun b => mergeRoot b.1), none, p') ∧ p'.Within s
+  | [], p, _, hp => ⟨p, by simp [genBlocksSeq], hp⟩
+  | b :: rest, p, hv, hp => by
+    obtain ⟨p1, h1, hp1⟩ := block_any_state s b.1 b.2 p (hv b (by simp)) hp
+    obtain ⟨p2, h2, hp2⟩ := C10_any_block_order s rest p1 (fun x hx => hv x (by simp [hx])) hp1
+    exact ⟨p2, by simp [genBlocksSeq, h1, h2], hp2⟩
+
+/-- C10 (row-level interleaving): while a worker parses the rows of its block, the shared parser may be
+    changed before every one of its rows by the other workers – arbitrarily, within what parsing rows of
+    the notation does to it (`Evolves`: the state stays within the notation, a learnt indent unit is kept,
+    heading mode is not left). Whatever those changes are, the worker builds the merged root the simple
+    mode builds, and no row of the block is rejected. -/
+theorem C10_block_under_row_interleaving (s : Spelling) (t : T) (i : Nat) (p : PState)
+    (hv : Nat → PState → PState) (hhv : ∀ j q, q.Within s → Evolves s q (hv j q))
+    (hvalid : s.Valid (items 1 [t])) (hp : p.Within s) :
+    ∃ g, genRowsHavoc hv 0 { p := p } (spellRows s i (items 1 [t])) = (g, none) ∧
+      g.root = some (mergeRoot t) ∧ g.done = [] ∧ g.p.Within s :=
+  block_havoc s t i p hv hhv hvalid hp
+
+/-- … and every row a worker parses at a legal point of its own block is such a change for the others -/
+theorem C10_parse_step_evolves (s : Spelling) (p : PState) (i h : Nat) (n : Bytes) (rest : List (Nat × Bytes))
+    (hc : s.c = sp ∨ s.c = tab) (hunit : 1 ≤ s.unit)
+    (hb : s.bullet i = hy ∨ s.bullet i = ast ∨ s.bullet i = pls)
+    (hh : 1 ≤ h) (hname : NameOk s h n)
+    (hw : p.Within s) (hfio : p.spaces = 0 → FIO s ((h, n) :: rest)) (hsharp : SharpInv s p ((h, n) :: rest)) :
+    Evolves s p (parse p (rowOf s i h n)).1 :=
+  parse_row_evolves s p i h n rest hc hunit hb hh hname hw hfio hsharp
 
 end Gtree
